@@ -2,7 +2,7 @@
 colour-mirror comparison (K10)."""
 import re
 
-from .core import cname, ap, show, strip_not, eff_cond, implied_atoms
+from .core import cname, ap, show, strip_not, eff_cond, implied_atoms, canonical
 
 WRITE_KINDS = ('asg', 'incdec')
 
@@ -178,11 +178,12 @@ def arm_statements(func, start, stop, with_guards=True):
     """Sorted multiset of rendered effect statements of a region, each with its guard context."""
     blocks = region(func, start, stop)
     out = []
-    for b in sorted(blocks, reverse=True):
-        for e in func.blocks[b]['ev']:
-            if is_effect(e):
-                g = guards_of(func, blocks, b) if with_guards else []
-                out.append(('[%s] ' % ' && '.join(g) if g else '') + show(e, 400))
+    with canonical(func):        # locals and parameters are compared by position / declaration order, not by name
+        for b in sorted(blocks, reverse=True):
+            for e in func.blocks[b]['ev']:
+                if is_effect(e):
+                    g = guards_of(func, blocks, b) if with_guards else []
+                    out.append(('[%s] ' % ' && '.join(g) if g else '') + show(e, 400))
     return sorted(out)
 
 
